@@ -138,6 +138,7 @@ class C18(SimpleProperty):
         synonyms = dict(U.CONTENT_TYPE_SYNONYMS)
         hs = [make_header(rng, supported, synonyms) for _ in range(30)]
         hs += [("", None), (None, None)]
+        hs += [tuple(x) for x in case.get("extra_headers", [])]
         out["headers"] = [{"text": t, "parts": p, "got": U.handle_header(t)} for t, p in hs]
         out["tables"] = {"supported": supported, "synonyms": synonyms, "default": U.DEFAULT_CONTENT_TYPE}
         from rdflib import term
